@@ -278,6 +278,10 @@ class C10(SigBase):
     def fixed_cases(self):
         return [
             "Bet;M20;L0:gr0=10 gr1=10x gr2=10xt kr0;H0k0:sg10@0 y;H0g2:gu2;H0g1:gu1;H0g0:gu0",
+            # a signal whose last interest was unregistered while it was pending is delivered with the default disposition
+            # (Sdfl) at the point where iv_signal_event restores the mask, between the clearing of `active` and the handler
+            # (regression of the log parser: the look-ahead for the handler has to pass over such a record)
+            "Bpo;M160;Z11111111111000000000;L0:gr1=14t gr2=14 kr0;H0k0:y sg14@1;L1:gr0=14 gr2=14 gr1=10t kr0;H1k0:sc10 sg10@0;H1g0:gu1/-/-/-",
             # first interest of the signal deep in the tree: X(12 shared) root, L(10), D(14), R(12 exclusive, sorts before X)
             "Bet;M40;L0:gr0=12 gr1=10 gr2=14 gr3=12x kr0 tr7+900000000;H0k0:sg12@0 y;H0t7:gu0 gu1 gu2 gu3",
             "Bet;M40;L0:gr0=12t gr1=10t gr2=14t gr3=12xt kr0 tr7+900000000;H0k0:sg12@0 y sg10@0 y sg14@0 y;H0t7:gu0 gu1 gu2 gu3",
